@@ -1,8 +1,15 @@
 import PedalModel.DriverLoop
+import PedalModel.ProxyWire
 open Pedal
 
-/- Line-protocol driver for C16: replace the stub dispatch with the model's request handlers. -/
+/- Line-protocol driver for C16 (see PedalModel/ProxyWire.lean for the request grammar). -/
 def dispatch : List String → String
+  | "bin" :: ts => Proxy.Wire.handleBin ts
+  | "conv" :: ts => Proxy.Wire.handleConv ts
+  | "getitem" :: ts => Proxy.Wire.handleContainer "getitem" ts
+  | "contains" :: ts => Proxy.Wire.handleContainer "contains" ts
+  | "isinst" :: ts => Proxy.Wire.handleIsinst ts
+  | "flags" :: ts => Proxy.Wire.handleFlags ts
   | _ => "bad-request"
 
 def main : IO Unit := driverMain dispatch
